@@ -349,6 +349,27 @@ func runC09(r *Run) {
 		}
 	}
 	c09Registers(r)
+	// every method followed by a further step, over the boundary number corpus in all three
+	// representations and some strings: the step after a method applies to the method's result for every
+	// input value (special cases of a method must not end the path)
+	var mes []*Expr
+	follow := [][]*Expr{{sMethod("type")}, {sMethod("string")}, {sMethod("abs")}, {sFilter(eCmp(">", eCur(), eInt(0)))}, {sMethod("double"), sMethod("type")}, {sIndex(sub1(eInt(0)))}, {sMethod("ceiling"), sMethod("string")}}
+	for _, m := range []string{"abs", "floor", "ceiling", "double", "number", "integer", "bigint", "string", "boolean", "type", "size"} {
+		for _, f := range follow {
+			mes = append(mes, eVar("v", append([]*Expr{sMethod(m)}, f...)...))
+			mes = append(mes, eNeg(eVar("v", sMethod(m))).withSteps(f...), eArith("+", eVar("v", sMethod(m)), eInt(0)).withSteps(f...))
+		}
+	}
+	for _, f := range follow {
+		mes = append(mes, eVar("v", append([]*Expr{sDecimal(nil, nil)}, f...)...), eVar("v", append([]*Expr{sDecimal(i64(20), i64(2))}, f...)...), eNeg(eVar("v")).withSteps(f...), ePos(eVar("v")).withSteps(f...))
+	}
+	var mcfgs []sweepCfg
+	for _, v := range append(c13Corpus(false), "s:12", "s:-9223372036854775808", "s:1e400", "s:x", "s:true", "j:null", "j:true") {
+		mcfgs = append(mcfgs, sweepCfg{Num: "float64", Vars: map[string]string{"v": v}})
+	}
+	r.Bound("method_then_step_paths", 2*len(mes))
+	r.Bound("method_then_step_values", len(mcfgs))
+	refSweep(r, "method-then-step-over-boundary-values", bothModes(mes), makeDocs([]any{nil}), mcfgs)
 }
 
 // c09Registers: expressions that use a binding again after a nested construct
